@@ -13,6 +13,7 @@ structure MSpec where
   name  : Bytes
   level : Level
   codes : List Bytes
+  deriving DecidableEq
 
 /-- all 22 metrics in specification order -/
 def metrics : List MSpec := [
@@ -51,6 +52,14 @@ def tokOK (L : Level) (t : Bytes) : Bool := (metricsOf L).any fun m => tokIs m t
 /-- the token `t` names metric `m` (whatever its value) -/
 def named (m : MSpec) (t : Bytes) : Bool := (m.name ++ [colon]).isPrefixOf t
 
+/-- the name part of a token: everything before its first colon -/
+def nameOf (t : Bytes) : Bytes := t.takeWhile (· != colon)
+
+/-- no two equal elements -/
+def nodupB : List Bytes → Bool
+  | [] => true
+  | x :: xs => !xs.contains x && nodupB xs
+
 def prefixOK (hd : Bytes) : Bool := hd == b!"CVSS:3.0" || hd == b!"CVSS:3.1"
 
 /-- **C07**: the well-formed vectors of level `L`: the prefix `CVSS:3.0` or `CVSS:3.1` followed
@@ -60,8 +69,7 @@ def wf3 (L : Level) (s : Bytes) : Bool :=
   match split slash s with
   | [] => false
   | hd :: toks =>
-    prefixOK hd && toks.all (tokOK L) &&
-    (metricsOf L).all (fun m => (toks.filter (named m)).length ≤ 1) &&
+    prefixOK hd && toks.all (tokOK L) && nodupB (toks.map nameOf) &&
     baseMetrics.all (fun m => toks.any (tokIs m))
 
 /-- the code written for metric `m` in a well-formed vector, if any -/
